@@ -176,6 +176,12 @@ fn mcall(mac: &str, prefix: &str, a: &Arg, b: Option<&Arg>, d: &[u8], m: u32) ->
     c["rok"] = json!(tf(a.res.is_some()));
     c["rc"] = json!(a.comps);
     c["relabs"] = json!("f");
+    // fields of the shared call object that no macro uses: dropped to keep the records small
+    if let Some(o) = c.as_object_mut() {
+        for k in ["n", "s", "ls", "f"] {
+            o.remove(k);
+        }
+    }
     if let Some(b) = b {
         c["b"] = chars(&b.raw);
         c["bc"] = json!(b.comps);
@@ -318,15 +324,15 @@ struct Cfg {
     maxdata: usize,
 }
 
+/// calls that generate the bounded state space (every tree of the bound is reachable with them: an empty file is
+/// mkfile, content "x" is write_all, anything is taken away again with remove; links by symlink)
 fn mutators(cfg: &Cfg, paths: &[String]) -> Vec<Value> {
     let mut v = vec![];
     for p in paths {
         v.push(call("mkfile", p, ""));
         v.push(call("mkdir_p", p, ""));
         v.push(call_d("write_all", p, b"x"));
-        v.push(call_d("write_all", p, b""));
         v.push(call("remove", p, ""));
-        v.push(call("remove_all", p, ""));
     }
     if cfg.links > 0 {
         for a in paths {
